@@ -4,7 +4,7 @@ cd /verif
 mkdir -p /tmp/confirmR
 for d in /tmp/seed/outR/C[0-9][0-9][a-z]; do
   id=$(basename $d)
-  [ -f $d/patch.diff ] && [ -f $d/equiv.py ] || continue
+  [ -f $d/patch.diff ] && [ -f $d/equiv.py ] && [ -f $d/notes.md ] || continue
   if [ ! -f /tmp/confirmR/$id.result ] && [ ! -f /tmp/confirmR/$id.started ]; then
     touch /tmp/confirmR/$id.started
     (tools/confirm_refactor.sh $id > /dev/null 2>&1 &)
